@@ -2,6 +2,7 @@ import InfluxQL.Lemmas.Prec
 import InfluxQL.Model.ParserCore
 import InfluxQL.Lemmas.ExprRoundTrip
 import InfluxQL.Lemmas.ExprRoundTripWide
+import InfluxQL.Lemmas.StmtExprPiecesWide
 /-!
 # C03 — binary operators group by precedence and associate to the left
 
@@ -360,5 +361,20 @@ example : Expr.print (.call "max".toList
     "max(*::field, *::tag, v::float, -0.0)".toList := by decide
 -- the literal of the first example is canonical and finite
 example : (Dec.canonical ⟨false, 15, 1⟩ && Dec.finite ⟨false, 15, 1⟩) = true := by decide
+
+/-- **Use inside statements** (the WHERE clause of the C02 statement families over the wide class):
+`parseCondition` on the printed clause ` WHERE <cond>` (or nothing) followed by a continuation whose
+first token is no operator and not `WHERE` returns the condition — which may now contain number
+and duration literals, calls and typed references (`time > now() - 90m AND value >= 1.5`) — and
+stands before the continuation, or the fuel was too small. -/
+theorem condition_print_parse_wide (fuel : Nat) (s : PState) (c : Option Expr) (k : Str)
+    (hc : CondOKW s.lowerTbl c) (hk : Follow k [.WHERE]) (hs : RT.Stand s (whereText c ++ k)) :
+    wp (parseCondition fuel) s (fun c' s' => c' = c ∧ RT.Stand s' k ∧ RT.Same s s') (· = .fuel) :=
+  parseCondition_printW fuel s c k hc hk hs
+
+example : CondOKW [] (some (.binary .AND
+    (.binary .GT (.varRef "time".toList .Unknown)
+      (.binary .SUB (.call "now".toList []) (.duration 5400000000000)))
+    (.binary .GTE (.varRef "value".toList .Unknown) (.number ⟨false, 15, 1⟩)))) := by decide
 
 end InfluxQL.C03
